@@ -499,6 +499,25 @@ func c13Run(c *mc.Ctx) {
 			c13One(c, []ref.Field{{ID: 1, V: ref.Value{T: ref.SET, Elem: ref.LIST, L: []ref.Value{el}}}, {ID: 2, V: ref.Value{T: ref.STRUCT, F: []ref.Field{{ID: 1, V: el}, {ID: 2, V: em}}}}}, "empty lists/sets of every element type")
 		}
 	}
+	// inside a nested struct: a container of every element type followed by a container of every other element type and a
+	// scalar (the representatives above fix ONE element type per container kind); and map<ta,tb> followed by list<tc>
+	for _, ta := range ref.T11 {
+		for _, tb := range ref.T11 {
+			if !c.Mine() {
+				continue
+			}
+			la := ref.Value{T: ref.LIST, Elem: ta, L: []ref.Value{gen.Small(ta, 1)}}
+			sb := ref.Value{T: ref.SET, Elem: tb, L: []ref.Value{gen.Small(tb, 2), gen.Small(tb, 3)}}
+			c13One(c, []ref.Field{{ID: 5, V: ref.Value{T: ref.STRUCT, F: []ref.Field{{ID: 1, V: la}, {ID: 2, V: sb}, {ID: 3, V: gen.Small(ref.I32, 4)}, {ID: 4, V: gen.Small(ref.STRING, 5)}}}}}, "list<a>, set<b>, scalar, string inside a nested struct")
+			c13One(c, []ref.Field{{ID: 1, V: sb}, {ID: 2, V: la}, {ID: 3, V: gen.Small(ref.I64, 4)}}, "set<b>, list<a>, scalar at the top level")
+			for _, tc := range ref.T11 {
+				mab := ref.Value{T: ref.MAP, Key: ta, Elem: tb, L: []ref.Value{gen.Small(ta, 1), gen.Small(tb, 2)}}
+				lc := ref.Value{T: ref.LIST, Elem: tc, L: []ref.Value{gen.Small(tc, 3)}}
+				c13One(c, []ref.Field{{ID: 5, V: ref.Value{T: ref.STRUCT, F: []ref.Field{{ID: 1, V: mab}, {ID: 2, V: lc}, {ID: 3, V: gen.Small(ref.BYTE, 4)}}}}}, "map<a,b>, list<c>, scalar inside a nested struct")
+			}
+		}
+	}
+	c.Done("inside nested structs: list<a>,set<b>,scalar,string for all 121 (a,b); map<a,b>,list<c>,scalar for all 1331 (a,b,c)")
 	// containers whose members have different encoded sizes
 	for _, et := range []int8{ref.SET, ref.LIST, ref.MAP, ref.STRUCT, ref.STRING} {
 		if !c.Mine() {
